@@ -472,6 +472,9 @@ func (x *Exec) evBuiltin(st *State, call *ast.CallExpr, name string) []Val {
 			return []Val{{T: x.vc.emptyMap(srt), Sort: srt, GoT: t}}
 		case *types.Slice:
 			n := x.ev(st, call.Args[1])
+			for _, a := range call.Args[2:] {
+				x.ev(st, a) // capacity: evaluated for its effects / checks only
+			}
 			inf := x.vc.info(srt)
 			arr := x.vc.constArr(x.vc.intSort(), inf.Elem)
 			if x.safety {
@@ -538,6 +541,9 @@ func (x *Exec) lenOf(v Val) Val {
 	if inf != nil {
 		switch inf.Kind {
 		case kSlice:
+			if !strings.Contains(v.T, "!q") {
+				x.vc.termFact(x.vc.cmp(">=", x.vc.slLen(v), x.vc.intLit(0), true))
+			}
 			return Val{T: x.vc.slLen(v), Sort: x.vc.intSort(), GoT: intT}
 		case kMap:
 			// len() of a map: its well-formedness (non-negative size, a present key means a non-empty
